@@ -52,6 +52,8 @@ def holds(spec, toks):
             if d < 0:
                 return False
         return d == 0 and all(m in toks for m in spec['markers'])
+    if mode == 'member':
+        return toks in spec['members']
     if mode == 'always':
         return True
     if mode == 'never':
